@@ -2,3 +2,4 @@ import Bmc.Proofs.C11
 #print axioms Bmc.Proofs.C11.session_result_matches_request
 #print axioms Bmc.Proofs.C11.stray_is_retry
 #print axioms Bmc.Proofs.C11.sessionless_result_matches_request
+#print axioms Bmc.Proofs.C11.strays_are_skipped
